@@ -184,6 +184,105 @@ func startAgentWith(binary, root, cfgFile string, o agentOpts) (*agent, error) {
 	return a, nil
 }
 
+// startAgentSA starts the agent the way systemd socket activation does: `runsa` with the listening sockets created by the
+// parent and passed as descriptors 3.. (LISTEN_PID / LISTEN_FDS / LISTEN_FDNAMES).
+func startAgentSA(root, cfgFile string, o agentOpts) (*agent, error) {
+	a := &agent{root: root, cfgFile: cfgFile, sock: filepath.Join(root, "auth.sock"), lineCh: make(chan string, 1000), done: make(chan struct{})}
+	if len(o.listeners) == 0 {
+		o.listeners = []string{"sasl", "http", "ldap"}
+	}
+	var lc strings.Builder
+	var files []*os.File
+	var names []string
+	for _, l := range o.listeners {
+		switch l {
+		case "sasl":
+			fmt.Fprintf(&lc, "saslauthd:\n  listen: [%q]\n", a.sock)
+			ln, err := net.ListenUnix("unix", &net.UnixAddr{Name: a.sock, Net: "unix"})
+			if err != nil {
+				return nil, err
+			}
+			ln.SetUnlinkOnClose(false)
+			f, _ := ln.File()
+			ln.Close()
+			files, names = append(files, f), append(names, "saslauthd")
+		case "http", "ldap":
+			fmt.Fprintf(&lc, "%s:\n  listen: [\"127.0.0.1:0\"]\n", l)
+			ln, err := net.Listen("tcp", "127.0.0.1:0")
+			if err != nil {
+				return nil, err
+			}
+			if l == "http" {
+				a.httpAddr = ln.Addr().String()
+			} else {
+				a.ldapAddr = ln.Addr().String()
+			}
+			f, _ := ln.(*net.TCPListener).File()
+			ln.Close()
+			files, names = append(files, f), append(names, l)
+		}
+	}
+	lf := filepath.Join(root, "listener.yaml")
+	os.WriteFile(lf, []byte(lc.String()), 0o600)
+	args := []string{"--store", cfgFile}
+	if o.upgrades != "" {
+		args = append(args, "--do-upgrades", o.upgrades)
+	}
+	if o.policyType != "" {
+		args = append(args, "--policy-type", o.policyType, "--policy-condition", o.policyCond)
+	}
+	if o.hooksDir != "" {
+		args = append(args, "--hooks-dir", o.hooksDir)
+	}
+	args = append(args, "runsa", "--listener", lf)
+	// LISTEN_PID must be the agent's own pid: a shell sets it and execs the binary
+	a.cmd = exec.Command("/bin/sh", append([]string{"-c", `LISTEN_PID=$$ exec "$0" "$@"`, agentBin()}, args...)...)
+	a.cmd.Env = append(cleanEnv(), fmt.Sprintf("LISTEN_FDS=%d", len(files)), "LISTEN_FDNAMES="+strings.Join(names, ":"))
+	a.cmd.Env = append(a.cmd.Env, o.env...)
+	a.cmd.ExtraFiles = files
+	pr, pw, _ := os.Pipe()
+	a.cmd.Stdout, a.cmd.Stderr = pw, pw
+	if err := a.cmd.Start(); err != nil {
+		return nil, err
+	}
+	pw.Close()
+	for _, f := range files {
+		f.Close()
+	}
+	go func() {
+		sc := bufio.NewScanner(pr)
+		sc.Buffer(make([]byte, 1<<20), 1<<20)
+		for sc.Scan() {
+			a.mu.Lock()
+			a.lines = append(a.lines, sc.Text())
+			a.mu.Unlock()
+		}
+		a.exitErr = a.cmd.Wait()
+		close(a.done)
+	}()
+	// ready when every handed-over listener has announced itself
+	deadline := time.Now().Add(20 * time.Second)
+	for time.Now().Before(deadline) {
+		n := 0
+		a.mu.Lock()
+		for _, l := range a.lines {
+			if listenRe.MatchString(l) {
+				n++
+			}
+		}
+		a.mu.Unlock()
+		if n >= len(files) {
+			return a, nil
+		}
+		if !a.alive() {
+			return nil, fmt.Errorf("socket-activated agent exited during start: %v\n%s", a.exitErr, a.log())
+		}
+		time.Sleep(5 * time.Millisecond)
+	}
+	a.stop()
+	return nil, fmt.Errorf("socket-activated agent did not announce its %d listeners within 20 s:\n%s", len(files), a.log())
+}
+
 func cleanEnv() []string {
 	var e []string
 	for _, kv := range os.Environ() {
